@@ -472,22 +472,34 @@ def skipExisting (fs : List (FName × Bytes)) : Nat → Nat → Nat
   | 0, seq => seq
   | f + 1, seq => if (fsGet fs (.numbered seq)).isSome then skipExisting fs f (seq + 1) else seq
 
+/-- the sequence number `_start_new_warc_file(meta)` settles on -/
+def startSeq (c : Cfg) (s : St) (isMeta : Bool) : Nat :=
+  if c.maxSize.any (· != 0) && !isMeta && c.appending then skipExisting s.fs (s.fs.length + 1) s.seq
+  else s.seq
+
+/-- `WARCRecord()` + `_populate_warcinfo` for creation index `n` (always with checksum) -/
+def warcinfoRecord (c : Cfg) (e : Env) (n : Nat) : Record :=
+  let w := commonFields n (lit "warcinfo") (lit "application/warc-fields") (e.date n) (e.uuid n)
+  computeChecksum e.H { w with block := warcinfoBlock c } none
+
+/-- `_start_new_warc_file(meta)` up to (not including) `write_record(warcinfo)` -/
+def startPre (c : Cfg) (e : Env) (s : St) (isMeta : Bool) : St :=
+  let seq := startSeq c s isMeta
+  let cur := fnameOf c isMeta seq
+  { s with fs := if c.appending then s.fs else fsSet s.fs cur [], cur := cur, seq := seq,
+           next := s.next + 1, winfoId := recordIdOf (e.uuid s.next) }
+
 /-- `_start_new_warc_file(meta)` -/
 def startFile (c : Cfg) (e : Env) (s : St) (isMeta : Bool) : St :=
-  let seq :=
-    if c.maxSize.any (· != 0) && !isMeta && c.appending then skipExisting s.fs (s.fs.length + 1) s.seq
-    else s.seq
-  let cur := fnameOf c isMeta seq
-  let fs := if c.appending then s.fs else fsSet s.fs cur []
-  let w := commonFields s.next (lit "warcinfo") (lit "application/warc-fields") (e.date s.next) (e.uuid s.next)
-  let w := computeChecksum e.H { w with block := warcinfoBlock c } none
-  let s := { s with fs := fs, cur := cur, seq := seq, next := s.next + 1, winfoId := recordIdOf (e.uuid s.next) }
-  writeRecord c e s w
+  writeRecord c e (startPre c e s isMeta) (warcinfoRecord c e s.next)
+
+/-- the state before `__init__` has started a file -/
+def st0 (existing : List (FName × Bytes)) : St :=
+  { fs := existing, cur := .main, seq := 0, winfoId := [], next := 0, cdxLines := [], log := [], slots := [] }
 
 /-- `WARCRecorder(filename, params)`: `existing` = files already present -/
 def initSt (c : Cfg) (e : Env) (existing : List (FName × Bytes)) : St :=
-  startFile c e { fs := existing, cur := .main, seq := 0, winfoId := [], next := 0, cdxLines := [],
-                  log := [], slots := [] } false
+  startFile c e (st0 existing) false
 
 /-- `flush_session()` -/
 def flushSession (c : Cfg) (e : Env) (s : St) : St :=
